@@ -9,7 +9,7 @@ ASSUMPTIONS = [
     'equality pattern (set partition) of the key cells, one class optionally None - sound because the join inspects keys only through ==/hash; '
     'the unreduced domain {None,0,1,2}^n is run at 2x2 in the thorough tier as a hedge',
     'payload cells are unbounded symbolic ints; a hidden row-id column on each side makes the origin of every output row observable',
-    'key kinds int / str / bool / date are renderings of the class numbers; left and right key columns of differing inferred kind are outside the property '
+    'key kinds int / str / bool / date / hash-colliding ints (-1 vs -2, 0 vs 2^61-1, ...) are renderings of the class numbers; left and right key columns of differing inferred kind are outside the property '
     '(serif refuses them)',
     'PYTHONHASHSEED is swept over {0,1,2} for str keys (a configuration sweep, not a symbolic quantification)',
 ]
@@ -29,13 +29,13 @@ def obligations(tier, kind='inner', mode='rows', prefix='inner'):
                         bounds='%dx%d rows, K=%d key columns (%s), all key equality patterns%s, W=%d symbolic int payload column(s) per side, keys given by %s'
                         % (nl, nr, c['K'], c['ktype'], ' incl. a None class' if c.get('nones', True) else '', c['W'], c['spec']),
                         smoke=joinlib.smoke(nl, nr, c['K'], c['W'])))
-    sizes = [(2, 2), (1, 2), (2, 1), (0, 2), (2, 0), (0, 0), (1, 1)]
+    sizes = [(2, 2), (1, 2), (2, 1), (0, 2), (2, 0), (0, 0), (1, 1), (1, 3), (3, 1)]
     for nl, nr in sizes:
         add(nl, nr)
     add(2, 2, K=2, nones=False)
     add(2, 2, W=0)
     add(2, 2, W=2)
-    for kt in ('str', 'bool', 'date'):
+    for kt in ('str', 'bool', 'date', 'hashy'):
         add(2, 2, ktype=kt)
     for sp in ('col', 'ext'):
         add(2, 2, spec=sp)
@@ -45,7 +45,8 @@ def obligations(tier, kind='inner', mode='rows', prefix='inner'):
     for seed in (1, 2):
         add(2, 2, ktype='str', hashseed=seed)
     if not q:
-        for nl, nr in [(3, 3), (3, 2), (2, 3), (3, 1), (1, 3), (0, 3), (3, 0)]:
+        add(3, 3, ktype='hashy', nones=False)
+        for nl, nr in [(3, 3), (3, 2), (2, 3), (0, 3), (3, 0)]:
             add(nl, nr)
         add(2, 2, K=2)
         add(3, 2, K=2, nones=False)
